@@ -13,7 +13,9 @@ use serde::{Deserialize, Serialize};
 use serde_json::json;
 use std::collections::{BTreeMap, BTreeSet};
 
-pub const NAMES: &[&str] = &["a", "b", "c", "d", "f", "g", "fs", "r", "s"];
+/// The name alphabet: short names, plus the names an interactive front end conventionally
+/// claims for itself (last result: `ans`, `_`, `it`) - to the language they are ordinary names.
+pub const NAMES: &[&str] = &["a", "b", "c", "d", "f", "g", "fs", "r", "s", "ans", "_", "it"];
 /// names the generator uses for parameters and do-block locals
 pub const LOCAL_NAMES: &[&str] = &["x", "y", "t", "m", "n", "k", "o", "v", "w", "xs", "acc", "more", "rest", "deep", "zt", "zf", "zr", "zo", "zz", "zk"];
 
